@@ -28,10 +28,10 @@ def run(ctx):
         ctx.escalated = True
     import gen.reassembler_slots as gs
     thorough = ctx.tier == "thorough" or ctx.escalated
-    g.diff(ctx, tier_n(ctx, 2500, 30000), exhaustive_too=thorough)
+    g.diff(ctx, tier_n(ctx, 2000, 30000), exhaustive_too=thorough)
     # second layer: Data.SlotBuf (transcription of the slot/allocation code) against the same real object,
     # compared including the chunk boundaries of every pop and report()
-    gs.diff(ctx, tier_n(ctx, 1500, 15000), exhaustive_too=thorough)
+    gs.diff(ctx, tier_n(ctx, 1000, 15000), exhaustive_too=thorough)
     if ctx.tier == "thorough" or ctx.escalated:
         ctx.exhaustive = True
         ctx.extra["reassembler_exhaustive"] = (f"all op sequences of length <= 4 over {len(g.EX_FULL)} ops (6 offsets x 4 lengths, FIN variants, "
